@@ -20,6 +20,7 @@ def boundary_pairs(lens):
 class C07(Check):
     pid = 'C07'
     validate = True
+    fork_logging = True       # DEBUG logging on/off is a symbolic input of every path
     anchors = [('src/fast_ticc/data_preparation.py', 'label_switching_cost_template'),
                ('src/fast_ticc/front_end.py', 'ticc_joint_labels'), ('src/fast_ticc/front_end.py', 'ticc_labels'),
                ('src/fast_ticc/cluster_label_assignment.py', 'predict_cluster_labels'),
